@@ -650,6 +650,114 @@ func c09Streamed(c *mc.Ctx) {
 	c.Tracef("%s, prefix %s, entry %d -> %s", what, prefix, entry, out)
 }
 
+// ---- redirects that never end -------------------------------------------------------------------------
+
+var c09RedirectTargets = []string{"ocsp", "crl", "delta"}
+var c09RedirectStatus = []int{301, 302, 303, 307, 308}
+var c09RedirectKinds = []string{"to-itself", "to-ever-new-paths", "to-ever-new-relative-locations", "between-two-hosts"}
+
+const c09RedirectLimit = 60
+
+// c09Redirects answers one kind of request with a redirection, and every request that follows it with another one: a server can do
+// that for ever. A check that is still following after 60 exchanges only stopped because the harness stopped redirecting.
+func c09Redirects(c *mc.Ctx) {
+	kind := c09RedirectTargets[c.ChooseFree("target", len(c09RedirectTargets))]
+	status := c09RedirectStatus[c.ChooseFree("status", len(c09RedirectStatus))]
+	how := c09RedirectKinds[c.ChooseFree("redirection", len(c09RedirectKinds))]
+	entry := c.ChooseFree("entry", 2) // 0 = full validator, 1 = the narrow entry point (ocsp.CheckStatus / HTTPFetcher.Fetch)
+	r := c09GetRev()
+	var hops int32
+	redirect := func(rq *netsim.Request) netsim.Answer {
+		n := atomic.AddInt32(&hops, 1)
+		if n > c09RedirectLimit {
+			return netsim.Answer{Err: netsim.ErrTransport}
+		}
+		u, err := url.Parse(rq.URL)
+		if err != nil {
+			return netsim.Answer{Status: 400}
+		}
+		loc := rq.URL
+		switch how {
+		case "to-ever-new-paths":
+			loc = fmt.Sprintf("http://%s/redirected/hop%d", u.Host, n)
+		case "to-ever-new-relative-locations":
+			loc = fmt.Sprintf("hop%d/next", n)
+		case "between-two-hosts":
+			loc = fmt.Sprintf("http://mirror%d.redirect.test/redirected/same", n%2)
+		}
+		return netsim.Answer{Status: status, Header: http.Header{"Location": {loc}}, Body: []byte("moved")}
+	}
+	redirecting := false // once the targeted request has been redirected, everything that follows is part of the loop
+	tr := &netsim.Transport{}
+	tr.Handler = func(rq *netsim.Request, raw *http.Request) netsim.Answer {
+		if rq.FollowUp && redirecting {
+			return redirect(rq)
+		}
+		src, ok := parseSource(rq.URL)
+		if !ok {
+			return netsim.Answer{Status: 404}
+		}
+		switch {
+		case src.kind == "ocsp":
+			if kind == "ocsp" {
+				redirecting = true
+				return redirect(rq)
+			}
+			return netsim.Answer{Err: netsim.ErrTransport} // force the CRL path
+		case src.delta:
+			if kind == "delta" {
+				redirecting = true
+				return redirect(rq)
+			}
+			return netsim.Answer{Status: 200, Body: r.crlDelta}
+		default:
+			switch kind {
+			case "crl":
+				redirecting = true
+				return redirect(rq)
+			case "delta":
+				return netsim.Answer{Status: 200, Body: r.crlBase}
+			}
+			return netsim.Answer{Status: 200, Body: r.crlPlain}
+		}
+	}
+	chain := pki.X509s(r.w.certs)
+	out := "?"
+	pan, hung, dump := guarded(func() {
+		f, _ := corecrl.NewHTTPFetcher(tr.Client())
+		switch {
+		case entry == 0:
+			v, _ := revocation.NewWithOptions(revocation.Options{OCSPHTTPClient: tr.Client(), CRLFetcher: f, CertChainPurpose: purpose.CodeSigning})
+			res, err := v.ValidateContext(context.Background(), revocation.ValidateContextOptions{CertChain: chain, AuthenticSigningTime: pki.Now.Add(-time.Hour)})
+			if err == nil && len(res) > 0 && res[0] != nil {
+				out = "verdict:" + res[0].Result.String()
+			}
+		case kind == "ocsp":
+			res, err := revocsp.CheckStatus(revocsp.Options{CertChain: chain, HTTPClient: tr.Client()})
+			if err == nil && len(res) > 0 && res[0] != nil {
+				out = "verdict:" + res[0].Result.String()
+			}
+		default:
+			_, err := f.Fetch(context.Background(), crlURL(0, 0))
+			out = fmt.Sprintf("fetch-error:%v", err != nil)
+		}
+	})
+	c.State("endless redirection of the " + kind + " request")
+	c.Outcome("redirected:" + out)
+	what := fmt.Sprintf("revocation check whose %s request is redirected (%d, %s) again and again", kind, status, how)
+	if c09Report(c, what, "", pan, hung, dump) {
+		return
+	}
+	if n := atomic.LoadInt32(&hops); n > c09RedirectLimit {
+		c.Fail("C09 unbounded following of redirections ("+kind+" request)", "%s, entry %d: more than %d redirections were followed; the call only came back because the server stopped redirecting", what, entry, c09RedirectLimit)
+	}
+	if out == "verdict:OK" && kind != "delta" {
+		// (nothing but redirections was ever served for the only source of the leaf)
+		c.Fail("C09 OK after nothing but redirections", "%s, entry %d", what, entry)
+	}
+	c.Tracef("%s, entry %d -> %s after %d redirections", what, entry, out, atomic.LoadInt32(&hops))
+}
+
 // ---- responders that vouch for each other -------------------------------------------------------------
 
 var (
@@ -761,6 +869,8 @@ func c09Scenarios(tier mc.Tier) []mc.Scenario {
 	var out []mc.Scenario
 	out = append(out, mc.Scenario{Name: "C09-responders-vouching-for-each-other", Bound: -1, Expect: 4, Body: c09MutualResponders,
 		Params: map[string]string{"delegates": "2, each with a responder URL of its own, no ocsp-nocheck", "exchangeLimit": fmt.Sprint(c09MVLimit)}})
+	out = append(out, mc.Scenario{Name: "C09-redirections-that-never-end", Bound: -1, Expect: int64(len(c09RedirectTargets) * len(c09RedirectStatus) * len(c09RedirectKinds) * 2), Body: c09Redirects,
+		Params: map[string]string{"targets": fmt.Sprint(c09RedirectTargets), "statuses": fmt.Sprint(c09RedirectStatus), "redirections": fmt.Sprint(c09RedirectKinds), "limit": fmt.Sprint(c09RedirectLimit)}})
 	out = append(out, mc.Scenario{Name: "C09-long-chains", Bound: -1, Expect: 4 * 4 * 3, Body: func(c *mc.Ctx) { longChains(c, "C09") },
 		Params: map[string]string{"lengths": "9, 10, 12, 17", "shapes": "all with responder / none with sources / first eight without / alternating", "entries": "validatecontext, validate, checkstatus"}})
 	out = append(out, mc.Scenario{Name: "C09-bodies-that-never-end", Bound: -1, Expect: int64(len(c09StreamTargets) * len(c09StreamStatus) * len(c09StreamPrefix) * 2), Body: c09Streamed,
